@@ -188,6 +188,8 @@ def check_proofs(ctx, extra_modules=()):
     p = _lake(['build'] + targets)
     log = p.stdout.decode(errors='replace')
     if p.returncode != 0:
+        # the model driver does not depend on the theorems: build it on its own so the correspondence can still run
+        _lake(['build', f'drv_{prop.lower()}'])
         errs = [l for l in log.split('\n') if 'error' in l][:20]
         ctx.proof['broken'].append({'what': 'lake build ' + ' '.join(targets), 'errors': errs})
         ctx.proof['build_log_tail'] = log[-3000:]
